@@ -104,11 +104,11 @@ CHECKS = {
         "(whole tree + allocation events); hash and AVL likewise; ring construction, path builders, string_view_copy, environment expansion, create_directories, canonical/current/temp path, temporary directory swept over EVERY request index k (single and persistent) with an implementation-only oracle "
         "(documented failure or fault-free result, no leak, no misuse, no crash under ASan/UBSan). copy_file's and file_equals' fallbacks are theorems/cases of C14/C15.",
    note="For the string/filesystem functions the verdict is the implementation-only oracle (no separate Lean model of their allocation behaviour beyond C16/C10-12 value models).", ref="§5 C07"),
- "C08": dict(cat="proof", tech="Lean 4 theorems about allocator events of the B-tree model (blocks carry ids; history_pages_accounted: after any history the outstanding blocks are exactly the pages reachable from the root; lifecycle_balanced: free after any history releases every block once) plus, for every component, a tracking allocator with block registry, a default-allocator guard, libc-allocation poisoning of zix sources and a static scan",
+ "C08": dict(cat="proof", tech="Lean 4 theorems about allocator events of the B-tree model (blocks carry ids; history_pages_accounted: after any history the outstanding blocks are exactly the pages reachable from the root; lifecycle_balanced: free after any history releases every block once; ZixTree: avl_lifecycle_balanced / avl_free_after_alloc / avl_outstanding over every history incl. refused and duplicate inserts; ZixHash: hash_lifecycle_balanced / hash_free_after_alloc / hash_outstanding / hash_refused_keeps_array over every history and failure pattern) plus, for every component, a tracking allocator with block registry, a default-allocator guard, libc-allocation poisoning of zix sources and a static scan",
    text="Every component (B-tree, hash, AVL, ring, path builders, string_view_copy, environment expansion, copy_file on the kernel-copy and the user-space path, file_equals, create_directories, canonical/current/temp path) is run with a tracking allocator that gives every block a serial id, logs each entry point "
         "and reports wrong-entry release, double or foreign release and outstanding blocks; a guard aborts if a zix function reaches the default allocator while a caller allocator was supplied; zix sources are compiled so that direct malloc/calloc/realloc/free/posix_memalign abort; src/ is scanned statically. "
         "B-tree page events (allocate/free with ids) equal the model's after every call. Theorems: alloc_page_fresh; the history-level page-accounting theorems (live blocks = pages of the tree, nothing outstanding after free) are being added.",
-   note="For components other than the B-tree the exactly-once discipline is observed by the tracking allocator on the exercised histories, not a theorem.", ref="§5 C08"),
+   note="Exactly-once is a theorem for the B-tree, ZixTree and ZixHash models (whose event sequences are compared call by call with the tracking allocator's log); for the string, environment, filesystem and ring functions it is observed by the tracking allocator on the exercised inputs and fault positions, not a theorem.", ref="§5 C08"),
 }
 
 NOT_YET = "check not built yet in this revision (framework under construction; see DESIGN.md §8)"
